@@ -298,4 +298,6 @@ def run(chk, ctx):
     round3.tidy_up_callers(chk, ctx)            # a retry inside a branch leaves its siblings alone
     from . import c06
     c06.r2(chk, ctx)                                         # a late sibling failure after the state was caught is Task.Terminated, so the catcher runs once
+    from . import round4
+    round4.batch_reentry_keeps_retry(chk, ctx)
     chk.assume("one retry counter per state (the engine does not count per retrier; the property's wording does not pin this down)")
